@@ -530,6 +530,34 @@ def _interval(fn, g, at, e, depth=0):
             a = strip_all(atom)
             if truth and a.get("k") == "DeclRefExpr" and a.get("d") == e.get("d") and lo == 0:
                 lo = 1
+        # a local that is initialised once and never written again also has its initialiser's range
+        # (evaluated where it is declared)
+        if e.get("dk") == "Var" and not any(d_ == e.get("d") for x in fn.walk() for d_, _ in flow.written_decls(x)):
+            for v in fn.walk():
+                if v.get("k") == "VarDecl" and v.get("d") == e.get("d") and v.get("c"):
+                    iv = _interval(fn, g, v, v["c"][0], depth + 1)
+                    if iv:
+                        lo, hi = max(lo, iv[0]), min(hi, iv[1])
+        return (lo, hi)
+    if k == "UnaryOperator" and e.get("op") == "*" and e.get("w"):
+        # *p : the range of its type refined by facts about the very same expression
+        w, sg = e["w"], e.get("sg")
+        lo, hi = (-(1 << (w - 1)), (1 << (w - 1)) - 1) if sg else (0, (1 << w) - 1)
+        for l, rel, rr in (g.cmps(at) or []):
+            if same_expr(l, e):
+                c = folded(rr)
+                if c is None:
+                    continue
+                if rel == ">":
+                    lo = max(lo, c + 1)
+                elif rel == ">=":
+                    lo = max(lo, c)
+                elif rel == "<":
+                    hi = min(hi, c - 1)
+                elif rel == "<=":
+                    hi = min(hi, c)
+                elif rel == "==":
+                    lo, hi = c, c
         return (lo, hi)
     return None
 
@@ -717,4 +745,6 @@ SELFTESTS = [
     (rule_exit_status, ["c08_opts_bad.c"], ["c08_opts_good.c"], "return#"),
     (rule_cursor_discipline, ["c08_cursor_bad.c"], ["c08_cursor_good.c"], "handle_ext"),
     (rule_index_ranges, ["c08_cursor_bad.c"], ["c08_cursor_good.c"], "buf["),
+    (rule_index_ranges, ["c08_res_bad.c"], ["c08_res_good.c"], "memset"),
+    (rule_resource_typestate, ["c08_res_bad.c"], ["c08_res_good.c"], "dec@decode_file"),
 ]
